@@ -1902,7 +1902,15 @@ class Router:
         ------
         NotImplementedError : Version not implemented
         """
-        self.process_basic_header(packet)
+        try:
+            self.process_basic_header(packet)
+        except Exception as e:  # pylint: disable=broad-except
+            # A frame that cannot be processed (unsupported version or header
+            # type, truncated or malformed headers, unknown enumeration values,
+            # hop limit above the maximum, zero-sized area, undecodable
+            # upper-layer payload, ...) is discarded; it must never take the
+            # receive path down.
+            print(f"Discarding received packet: {type(e).__name__}: {e}")
 
     def duplicate_address_detection(self, gn_addr: GNAddress) -> None:
         """
